@@ -25,6 +25,8 @@ inductive PV where
   | none
   | unbound
   | arr (l : List PV)     -- a NumPy array: 1-D when the items are scalars, 2-D when they are arrays
+  | set (l : List PV)     -- a set: its distinct elements in insertion order
+  | dict (ks vs : List PV) -- a dict: keys and values in insertion order (same length)
 deriving Repr, Inhabited
 
 abbrev RV := R PV
@@ -124,6 +126,8 @@ def PV.truthy : PV → Bool
   | .none => false
   | .unbound => false
   | .arr l => !l.isEmpty      -- (NumPy raises for more than one element; conditions on arrays are outside the fragment)
+  | .set l => !l.isEmpty
+  | .dict ks _ => !ks.isEmpty
 
 /-- bind of the exception monad, spelled out so that `simp` sees through it. -/
 @[inline] def bnd {α β} (m : R α) (k : α → R β) : R β :=
@@ -282,6 +286,8 @@ def pyIter (v : PV) : R (List PV) :=
   | .tup l => .ok l
   | .str s => .ok (s.map fun c => .str [c])
   | .arr l => .ok l
+  | .set l => .ok l
+  | .dict ks _ => .ok ks
   | _ => .error .typeError
 
 def pyList (v : PV) : RV := (pyIter v).map .list
@@ -292,6 +298,8 @@ def pyLen (v : PV) : RV :=
   | .tup l => .ok (.int l.length)
   | .str s => .ok (.int s.length)
   | .arr l => .ok (.int l.length)
+  | .set l => .ok (.int l.length)
+  | .dict ks _ => .ok (.int ks.length)
   | _ => .error .typeError
 
 /-- `range(a, b, s)` as an eager list. -/
@@ -508,6 +516,8 @@ def pyIn (x c : PV) : R Bool :=
   match c, x with
   | .list l, _ => .ok ((findIdxEq x l 0).isSome)
   | .tup l, _ => .ok ((findIdxEq x l 0).isSome)
+  | .set l, _ => .ok ((findIdxEq x l 0).isSome)
+  | .dict ks _, _ => .ok ((findIdxEq x ks 0).isSome)
   | .str s, .str p => .ok ((findSub p s 0).isSome)
   | .str _, _ => .error .typeError
   | _, _ => .error .typeError
@@ -668,6 +678,88 @@ def npSetItem2 (a i j x : PV) : RV :=
       match pySetItem (rows.getD r .none) j x with
       | .error e => .error e
       | .ok row' => .ok (.arr (rows.set r row'))
+  | _, _ => .error .typeError
+
+/-! ## sets, zip, sorted, filter, itertools.product, del
+
+A `set` is modelled as the list of its distinct elements **in insertion order** (`list(s)` and iteration
+see that order; CPython's order depends on the hashes — the functions in the fragment only feed such lists
+into order-insensitive uses: `len`, membership, `itertools.product` followed by a set and `sorted`). -/
+
+/-- `s.add(x)`. -/
+def pySetAdd (s x : PV) : RV :=
+  match s with
+  | .set l => .ok (.set (if (findIdxEq x l 0).isSome then l else l ++ [x]))
+  | _ => .error .other
+
+/-- `zip(a, b)` as an eager list of pairs (stops at the shorter one). -/
+def zipPairs : List PV → List PV → List PV
+  | x :: xs, y :: ys => .tup [x, y] :: zipPairs xs ys
+  | _, _ => []
+
+def pyZip (a b : PV) : RV :=
+  match pyIter a, pyIter b with
+  | .ok xs, .ok ys => .ok (.list (zipPairs xs ys))
+  | .error e, _ => .error e
+  | _, .error e => .error e
+
+/-- insertion into a list sorted by Python's `<` (strings with strings, numbers with numbers). -/
+def insertSortedPV (x : PV) : List PV → R (List PV)
+  | [] => .ok [x]
+  | y :: ys =>
+    match pyLt x y with
+    | .error e => .error e
+    | .ok true => .ok (x :: y :: ys)
+    | .ok false => (insertSortedPV x ys).map (y :: ·)
+
+/-- `sorted(items)` (stable; `TypeError` for items that do not compare). -/
+def sortPV : List PV → R (List PV)
+  | [] => .ok []
+  | x :: xs =>
+    match sortPV xs with
+    | .error e => .error e
+    | .ok s => insertSortedPV x s
+
+def pySorted (v : PV) : RV :=
+  match pyIter v with
+  | .error e => .error e
+  | .ok l => (sortPV l.reverse).map .list      -- (reversed first so that equal items keep their order)
+
+/-- `filter(f, items)` as an eager list. -/
+def filterM' (f : PV → R Bool) : List PV → R (List PV)
+  | [] => .ok []
+  | x :: xs =>
+    match f x with
+    | .error e => .error e
+    | .ok b =>
+      match filterM' f xs with
+      | .error e => .error e
+      | .ok ys => .ok (if b then x :: ys else ys)
+
+def pyFilter (f : PV → R Bool) (v : PV) : RV :=
+  match pyIter v with
+  | .error e => .error e
+  | .ok l => (filterM' f l).map .list
+
+/-- `itertools.product(*lists)`: tuples in lexicographic order, the last list varying fastest. -/
+def productLists : List (List PV) → List (List PV)
+  | [] => [[]]
+  | fs :: rest => fs.flatMap fun f => (productLists rest).map (f :: ·)
+
+def pyProduct (v : PV) : RV :=
+  match pyIter v with
+  | .error e => .error e
+  | .ok ls =>
+    match ls.mapM (fun l => match pyIter l with | .ok xs => some xs | .error _ => Option.none) with
+    | some lists => .ok (.list ((productLists lists).map .tup))
+    | Option.none => .error .typeError
+
+/-- `del v[i]` on a list, as a new list. -/
+def pyDelItem (v i : PV) : RV :=
+  match v, i.asInt? with
+  | .list l, some i => match normIndex l.length i with
+                       | some j => .ok (.list (l.eraseIdx j))
+                       | Option.none => .error .indexError
   | _, _ => .error .typeError
 
 end Dsw.Py
